@@ -229,6 +229,9 @@ func diffClass(n, l *obs) string {
 		}
 		return "lowered-trace-is-prefix-same-throw"
 	}
+	if n.C != l.C && l.C == "throw:TypeError" && strings.HasPrefix(n.C, "throw:") && len(l.T) < len(n.T) && sameTrace(l.T, n.T[:len(l.T)]) {
+		return "lowered-throws-typeerror-before-native-throw"
+	}
 	if n.C != l.C && len(n.T) == len(l.T) {
 		same := true
 		for i := range l.T {
@@ -321,16 +324,21 @@ func objSignature(name string, env []string, ref, l *obs) string {
 		return ""
 	}
 	c := cs[0]
+	isPrefix := len(l.T) >= len(ref.T) && sameTrace(ref.T, l.T[:len(ref.T)])
+	all := strings.Join(l.T, " ") + " " + l.C
+	const ownProto, reparented = "<Object|__proto__=own:EWC:mark:m>", "<mark:m|>"
 	switch {
 	case strings.HasPrefix(c, "d_") && c != "d_ctorset" && c != "d_sblockset" && c != "d_superset" && c != "d_superget" &&
-		hasEnv(env, "BF") && ref.C == "throw:TypeError" && strings.HasPrefix(l.C, "ret:[str:<other|>,") && sameTrace(ref.T, l.T):
+		hasEnv(env, "BF") && ref.C == "throw:TypeError" && isPrefix && strings.Contains(all, "[str:<other|>,str:undef]"):
 		return "field-definition-on-non-extensible-object-silently-ignored"
 	case strings.HasPrefix(c, "s_") && hasEnv(env, "PX") && ref.C == l.C && !sameTrace(ref.T, l.T) && sameTrace(withoutTraps(ref.T), withoutTraps(l.T)):
 		return "proxy-trap-sequence-of-lowered-copy"
-	case strings.HasPrefix(c, "s_rest") && hasEnv(env, "OP") && sameTrace(ref.T, l.T) && strings.Contains(ref.C, "<Object|__proto__=own:EWC:mark:m>") &&
-		l.C == strings.Replace(ref.C, "<Object|__proto__=own:EWC:mark:m>", "<mark:m|>", 1):
+	case strings.HasPrefix(c, "s_rest") && hasEnv(env, "OP") && len(ref.T) == len(l.T) &&
+		strings.Contains(strings.Join(ref.T, " ")+" "+ref.C, ownProto) &&
+		all == strings.Replace(strings.Join(ref.T, " ")+" "+ref.C, ownProto, reparented, -1):
 		return "object-rest-assigns-own-__proto__-key"
-	case c == "d_superset" && ref.C == "throw:TypeError" && strings.HasPrefix(l.C, "ret:") && len(l.T) >= len(ref.T) && sameTrace(ref.T, l.T[:len(ref.T)]):
+	case c == "d_superset" && ref.C == "throw:TypeError" && !strings.HasPrefix(l.C, "throw:TypeError") && isPrefix && len(l.T) > len(ref.T)-1 &&
+		(hasEnv(env, "BG") || hasEnv(env, "BR") || hasEnv(env, "BF")):
 		return "failed-super-assignment-ignored-in-lowered-async-method"
 	}
 	return ""
